@@ -88,10 +88,10 @@ impl SvgElement {
 //@ - r == self.attrs@.dom().contains(key@)
 //@end
 //@item src/element.rs :: impl SvgElement :: fn has_foreign_position
-//@ strlit "rect" "box" "point" "use" "reuse" "image" "svg" "foreignObject" "circle" "ellipse" "line" "cx" "cy" "x1" "y1" "x2" "y2" "x" "y" "width" "height"
+//@ strlit "rect" "box" "point" "use" "reuse" "image" "svg" "foreignObject" "circle" "ellipse" "line" "polyline" "polygon" "path" "cx" "cy" "x1" "y1" "x2" "y2" "x" "y" "width" "height"
 //@ replace[R-any] <<<foreign.iter().any(|a| self.has_attr(a))>>> => <<<any_attr(self, foreign)>>>
 //@ body-start
-//@ | proof { reveal_with_fuel(has_any, 8); }
+//@ | proof { reveal_with_fuel(has_any, 10); }
 //@ ensures
 //@ - r == foreign_pos(self.name@, self.attrs@)     @@C10.pending.foreign_spec
 //@end
